@@ -51,7 +51,7 @@ func goEnv() []string {
 // so that a recorded schedule can be replayed deterministically.
 func threadedProperty(prop string) bool { return prop == "C12" || prop == "C20" }
 
-var lockCall = regexp.MustCompile(`([A-Za-z_][A-Za-z0-9_.]*)\.(Lock|Unlock)\(\)`)
+var lockCall = regexp.MustCompile(`([A-Za-z_][A-Za-z0-9_.]*)\.(Lock|Unlock|RLock|RUnlock)\(\)`)
 
 // mutexOverlay writes, under tmp, a copy of every non-test file of
 // /repo/pkg/ggql in which x.Lock() / x.Unlock() are rewritten to
@@ -104,13 +104,25 @@ func mutexOverlay(harnessDir, tmp string) (string, error) {
 import "sync"
 
 // Added by the verification overlay only (never part of /repo).
+
+// VerifLocker is what sync.Mutex and sync.RWMutex have in common.
+type VerifLocker interface {
+	Lock()
+	Unlock()
+	TryLock() bool
+}
+
 var (
-	VerifLock   = func(m *sync.Mutex) { m.Lock() }
-	VerifUnlock = func(m *sync.Mutex) { m.Unlock() }
+	VerifLock    = func(m VerifLocker) { m.Lock() }
+	VerifUnlock  = func(m VerifLocker) { m.Unlock() }
+	VerifRLock   = func(m *sync.RWMutex) { m.RLock() }
+	VerifRUnlock = func(m *sync.RWMutex) { m.RUnlock() }
 )
 
-func verifLock(m *sync.Mutex)   { VerifLock(m) }
-func verifUnlock(m *sync.Mutex) { VerifUnlock(m) }
+func verifLock(m VerifLocker)       { VerifLock(m) }
+func verifUnlock(m VerifLocker)     { VerifUnlock(m) }
+func verifRLock(m *sync.RWMutex)   { VerifRLock(m) }
+func verifRUnlock(m *sync.RWMutex) { VerifRUnlock(m) }
 `
 	dst := filepath.Join(odir, "zz_verifhook.go")
 	if err := os.WriteFile(dst, []byte(hook), 0o644); err != nil {
